@@ -113,8 +113,7 @@ UNIT = Unit(
     items=[
         Fn(F, "fn find_module", props=P,
            subst=[
-               (r"canonicalize\(path\)" + MAP_ERR, "canonicalize_or_err(path)", 1, "re"),
-               (r"canonicalize\(&result\)" + MAP_ERR, "canonicalize_or_err(&result)", 1, "re"),
+               (r"canonicalize\(([&A-Za-z_0-9]+)\)" + MAP_ERR, r"canonicalize_or_err(\1)", None, "re"),
                ("std::env::current_dir().map_err(ModuleLoaderErrorKind::FailedToGetCurrentDir)?", "current_dir_or_err()?", 1),
                (r"let path = PathBuf::from\(path\);\s*return Err\(ModuleLoaderErrorKind::FailedToGetPathParent\(path\)\.into\(\)\);", "return err_no_parent(path);", 1, "re"),
                ("Err(ModuleLoaderErrorKind::UnableToFindModule(module_name.into()).into())", "err_unable_to_find(module_name)", 1),
